@@ -356,11 +356,11 @@ func runCase(out *childOut, idx int, id int, c vt.Case) {
 		}
 		y := fmt.Sprintf(`type: IN-MEMORY
 config:
-  max_size: %d
-  max_item_size: %d
+  max_size: %dB
+  max_item_size: %dB
 chunk_subrange_size: %d
 max_chunks_get_range_requests: %d
-metafile_max_size: %d
+metafile_max_size: %dB
 chunk_object_attrs_ttl: %s
 chunk_subrange_ttl: %s
 blocks_iter_ttl: %s
